@@ -61,7 +61,7 @@ def run_item(item):
     res = new_result()
     I = interp()
     N = item["N"]
-    rng = random.Random(N)
+    rng = seeded_rng(N)
     pv, pal = sym_palette(I)
     if item["kind"] == "render":
         if item.get("sparse"):
